@@ -1126,6 +1126,7 @@ STATEMENTS: dict[str, str] = {
 	'truncate': 'no proper prefix of the compact JSON encoding of an object/array is bracket-balanced outside string literals (JSON printer model)',
 	'truncate_decoder': 'decoder level, no "rejects unbalanced text" assumption: with the model of json.dumps (compact) / json.loads of Model/JsonCodec.lean (round trip proved there, tied to CPython by the C15 streams) a written object or array decodes to exactly the value written and NO proper prefix of the file decodes — Hyp.valid_parse / prefix_invalid / dec_prefix for the two JSON layers as theorems about that decoder',
 	'symbols': 'for every semantics, import graph and acyclic history without a grammar change: the symbol table of every module in the warm run = its table in the run over the cleared cache directory (Module.identity over the import closure, c3eaa55); "restore is faithful" is the explicit hypothesis Hyp.dec_enc = C14.rt composed with the JSON round trip',
+	'collect_fuel_free': '__collect_hashes terminates on EVERY import graph (cycles included) and the fuel of the model never decides: from trees.length + 2 units on (what identityCore passes) the traversal result is independent of the fuel, for every semantics, source state, tree list, depends_on set and start module — a `none` of the model is the FileNotFoundError of the code',
 	'symbols_partial_closure': 'key coverage: an identity is the digest of the (file, hash) pairs of an import-closed set of files; two source states that give a module the same identity give it the same cache-free symbol table (id_covers; collect_closure: __collect_hashes returns such a set)',
 	'output_warm_cold': 'for every semantics (every renderer), acyclic history without interrupted write and grammar change: warm and cold run have the same cycle flag and, if clear, the same rendered texts, the same failure status (error), the same loaded modules, trees, identities, symbol tables and recorded output hashes (lockstep simulation)',
 	'parser_key': 'along every history the parser a run works with is the one built from the current grammar path, start, algorithm and grammar mtime; file names of different settings differ (a pickle is reused only when all four are unchanged)',
@@ -1220,7 +1221,7 @@ def run(ctx: Ctx) -> int:
 			'the decoders reject every proper prefix of what the encoders wrote and accept the whole (Hyp.valid_parse, valid_blob, prefix_invalid, dec_prefix): a theorem for the modelled JSON decoder (truncate_decoder), an assumption for pickle.load (searched)',
 			'a stored symbol table is restored as it was: Hyp.dec_enc — property C14 (C14.rt: export then import restores every entry) composed with the JSON round trip',
 			'module keys contain no "-" and differ from "parser.cache" (KeyOK); the cache directory is disjoint from the source directories',
-			'import graphs are acyclic (Acyclic / cyc = false): inside a cycle a module that is still loading contributes only its direct imports to an identity and the table of a module depends on the entry point of the traversal; termination on cycles (visited dict) is shown on an example and by the fuel-free run of the model, the general fuel bound of `collect` is not proved',
+			'import graphs are acyclic (Acyclic / cyc = false): inside a cycle a module that is still loading contributes only its direct imports to an identity and the table of a module depends on the entry point of the traversal; termination of the identity traversal on cycles is proved (collect_fuel_free: the visited dict bounds it, the fuel never runs out); the fuel of the module LOADER (loadMod, fuelOf) on cyclic graphs is not',
 			'library modules are not edited during a history',
 		],
 		trusted=['lark (parser pickle), json, pickle, glob/fnmatch, os file-system semantics', 'sys.addaudithook reports every open()/unlink below the cache directory'])
